@@ -302,4 +302,12 @@ func (*ExprBridge).matchesLikePattern
   loop 1 invariant len(pattern) == 0 ==> pi == 0 && starIdx == -1 && ti == 0
   loop 1 invariant len(text) == 0 ==> pi == 0
   loop 2 invariant 0 <= pi && (len(text) == 0 ==> forall(i, 0, pi, pattern[i] == 37))
+
+// ---- expression bridge (expr-lang behind it): assumed contracts
+extern GetExprBridge
+  props C04 C20 C05
+  option pure
+
+extern (*ExprBridge).EvaluateExpression
+  props C04 C20 C05
 @*/
